@@ -95,11 +95,11 @@ SHAPES = [
     ([221003, 12001, 102002, 12002, 1002, 11001], {}, '221'),
     ([221004, 301011, 12001], {}, '221'),
     ([101002, 221002, 12001, 2002], {}, '221'),
-    ([221002, 12001, 10004, 222000, 101002, 31031, 101001, 33007], {31031: [1, 0]}, '221'),
+    ([1001, 221002, 12001, 10004, 1002, 222000, 101002, 31031, 101001, 33007], {31031: [1, 0]}, '221'),
     # zero-count replications
     ([1001, 102000, 31001, 12001, 11001, 1002], {31001: [0]}, 'zero-count'),
-    ([101000, 31001, 101000, 31001, 12001], {31001: [2, 0, 0]}, 'zero-count'),
-    ([101000, 31001, 101000, 31001, 12001], {31001: [0]}, 'zero-count'),
+    ([103000, 31001, 101000, 31001, 12001], {31001: [2, 0, 0]}, 'zero-count'),
+    ([103000, 31001, 101000, 31001, 12001], {31001: [0]}, 'zero-count'),
     ([103000, 31002, 1001, 101000, 31001, 12001, 2001], {31002: [2], 31001: [0, 1]}, 'zero-count'),
     # flag tables, missing values
     ([2002, 8042, 20003, 2002], {2002: [None, 5], 8042: [0x20001]}, 'flags'),
